@@ -64,6 +64,12 @@ CLAIMS = {
          "and pool reset as the guards of the two indices not tested locally. Does not decide in-range-ness of arbitrary subscripts; shifts needing a "
          "relational loop invariant are listed as undecided.",
          "who-may-grow / dominance path rules + constant-range evaluation + type-trait queries over clang AST facts (static analysis)"),
+ "C16": ("Decides, in verbose and interface logging configurations, that each of the 34 state wrappers logs exactly once, before the callback, with "
+         "STATE_ID and the Method (and member pointer) its name denotes; that every request entry point logs the transition it queues with the same "
+         "kind / origin / destination; that cancellations, task / plan statuses and resolutions are logged unconditionally with the right ids; that "
+         "every logger call is guarded by the pointer and logging writes no machine state; and that every R_/RV_ operation that can change the "
+         "active set refreshes the structure report after its last lifecycle call (in id order). Does not decide activityHistory's saturation arithmetic.",
+         "pairing / dominance path rules + effect analysis over clang AST facts in log and report configurations (static analysis)"),
  "C12": ("Decides tie-breaking operators (left half kept on ties), the utility composition formulas of nested composite / orthogonal regions as expression "
          "shape, same-kind delegation of reports on the way down, rank masking, the shape of the cumulative walk (skip iff cursor >= utility, one rng.next() "
          "per resolution, rng.next called nowhere else, the arrays walked are the arrays summed), that the walk cannot return none, and the anonymous-head "
